@@ -63,6 +63,8 @@ PROPS = {
          "rule": "source repo (DAG <=14, shared blocks) x pre-populated destination x tips x table depth x max packfile size x packfile read partition, real sender->packfile->receiver; adversarial object orders; non-trivial = (>=2 packfiles or pre-populated destination) and >=2 commits sent; distinct by plan hash"},
     ]},
     "C05": {"level": "exploration", "profiles": [
+        {"id": "C05cli", "cpu": 4, "quick_n": 600, "thorough_n": 2000000000, "quick_s": 60, "thorough_s": 400, "seed_off": 300000, "timeout": 120,
+         "rule": "`wrgl merge main alt` through the in-process CLI: main ahead of / behind / equal to / diverged from alt x fast-forward mode x 1-3 commits on the moving side; main's table (raw and structurally checked) must be X when the other side is the base and the union of disjoint edits when diverged, main must descend from both; a refused merge leaves main alone; every case non-trivial"},
         {"id": "C05", "cpu": 4, "quick_n": 2400, "thorough_n": 2000000000, "quick_s": 60, "thorough_s": 900, "timeout": 120,
          "rule": "constructive 3-way merge scenarios (key anywhere or none, 1-3 blocks, 2-3 branches; disjoint edits, identical branches, branch = base, declared conflicts; column add/remove/move/rename; branch order permuted; hash-set batch; blocks or rows output); non-trivial = >=2 branches with edits or a conflict or a column operation; distinct by plan hash"},
     ]},
